@@ -524,14 +524,22 @@ fn check_app(c: &C03App) -> Outcome {
         let mut d = serde_json::Map::new();
         d.insert("origin_vertex".into(), json!(sc.d.unwrap_or(0)));
         d.insert("destination_vertex".into(), json!(sc.o));
-        if c.query_state.is_none() {
+        // ... or, for half of the declaring queries, the same feature names declared in other
+        // units with other initial values (a declaration is more than its set of names)
+        let same_names = c.query_state.is_some() && (sc.o + sc.spec.net.m()) % 2 == 0;
+        if c.query_state.is_none() || same_names {
+            let (du0, tu0) = match &c.query_state {
+                Some(qs) => (qs.dist_unit as usize, qs.time_unit as usize),
+                None => (sc.spec.state.dist_unit as usize, sc.spec.state.time_unit as usize),
+            };
             let mut f = serde_json::Map::new();
-            f.insert(DIST.into(), json!({"distance_unit": DIST_UNIT_NAMES[(sc.spec.state.dist_unit as usize + 1) % 5], "initial": 1234.5}));
+            f.insert(DIST.into(), json!({"distance_unit": DIST_UNIT_NAMES[(du0 + 1) % 5], "initial": 1234.5}));
             if has_time {
-                f.insert(TIME.into(), json!({"time_unit": TIME_UNIT_NAMES[(sc.spec.state.time_unit as usize + 1) % 4], "initial": 77.25}));
+                f.insert(TIME.into(), json!({"time_unit": TIME_UNIT_NAMES[(tu0 + 1) % 4], "initial": 77.25}));
             }
             d.insert("state_features".into(), serde_json::Value::Object(f));
         }
+        o.label_if(same_names, "app-earlier-query-declares-the-same-names-differently");
         let _ = capp.run(vec![serde_json::Value::Object(d)], Some(&json!({"parallelism": 1})));
     }
     let resp = match capp.run(vec![query.clone()], Some(&json!({"parallelism": 1}))) {
